@@ -22,6 +22,7 @@ import numpy as np
 from sim.machine import Machine, Result
 from sim.seeds import Streams, derive
 from sim import compare as C
+from sim import shadow
 
 _Q = {}
 
@@ -55,8 +56,9 @@ def invoke(obj, name, kw, model):
     """Call a query.  kw may carry the reserved key "@pos": the LRU keys
     entries by the argument pattern at the call site, so the same logical
     query is asked (0) with keywords, (1) positionally, (2) positionally with
-    the first omitted parameter given its default explicitly -- the patterns
-    the library's own internal callers use."""
+    the first omitted parameter given its default explicitly, (3) with
+    keywords and one omitted parameter passed as its default by keyword --
+    the patterns the library's own internal callers use."""
     from registry.specs import resolve_arg
     if name.startswith("attr:"):
         return getattr(obj, name[5:])
@@ -73,7 +75,7 @@ def invoke(obj, name, kw, model):
             for k, v in kw.items() if not k.startswith("@")}
     f = getattr(obj, name)
     pargs = []
-    if pos:
+    if pos in (1, 2):
         try:
             params = list(inspect.signature(f).parameters.values())
         except (TypeError, ValueError):
@@ -89,6 +91,20 @@ def invoke(obj, name, kw, model):
                 pos = 1
             else:
                 break
+    if pos == 3:
+        # keywords, one omitted parameter passed as its default by keyword
+        # (internal callers: self.nsi_degree(typical_weight=typical_weight))
+        try:
+            omitted = [prm for prm in
+                       inspect.signature(f).parameters.values()
+                       if prm.name not in args and prm.default is not prm.empty
+                       and prm.kind in (prm.POSITIONAL_OR_KEYWORD,
+                                        prm.KEYWORD_ONLY)]
+        except (TypeError, ValueError):
+            omitted = []
+        if omitted:
+            prm = omitted[kw.get("@k", 0) % len(omitted)]
+            args[prm.name] = prm.default
     out = f(*pargs, **args)
     if hasattr(out, "__next__"):
         out = list(out)
@@ -98,7 +114,11 @@ def invoke(obj, name, kw, model):
 def with_pos(kw, rnd):
     """The query pattern kw with a seeded call-site pattern."""
     c = rnd.random()
-    return kw if c < 0.5 else dict(kw, **{"@pos": 1 if c < 0.8 else 2})
+    if c < 0.45:
+        return kw
+    if c < 0.85:
+        return dict(kw, **{"@pos": 1 if c < 0.7 else 2})
+    return dict(kw, **{"@pos": 3, "@k": rnd.randrange(4)})
 
 
 def snap(v):
@@ -171,14 +191,14 @@ class C01(Machine):
 
     def lru_configs(self, tier):
         if tier == "thorough":
-            return ["default", "1", "2", "8", "inf", "off"]
-        return ["default", "2", "off"]
+            return ["default", "1", "2", "8", "inf", "off", "shadow"]
+        return ["default", "2", "off", "shadow"]
 
     def budget(self, tier):
         if tier == "thorough":
             return {"wall": 840, "max_runs": 10 ** 9, "chunk": 10,
                     "task_cap": 400}
-        return {"wall": 50, "max_runs": 10 ** 9, "chunk": 10,
+        return {"wall": 70, "max_runs": 10 ** 9, "chunk": 10,
                 "task_cap": 200}
 
     # ------------------------------------------------------------ pair table
@@ -233,6 +253,13 @@ class C01(Machine):
                 for mu in muts:
                     for (qn, kw) in qs:
                         out.append((s.name, mu.name, qn, kw))
+            if tier != "thorough":
+                # whatever the budget reaches is a uniform sample of the
+                # table (the small-class chains stay in front)
+                n_front = sum(1 for x in out if len(x) == 5)
+                tail = out[n_front:]
+                rnd.shuffle(tail)
+                out = out[:n_front] + tail
             C01._pairs[key] = out
         return C01._pairs[key]
 
@@ -362,10 +389,12 @@ class C01(Machine):
         objs = {}
         records = []
         sig = []
+        shadow.reset()
         try:
             for step, op in enumerate(run["ops"]):
                 R.steps += 1
                 k = op["op"]
+                self._shadow_events(R, step, objs)
                 if k in ("build", "discard"):
                     if k == "discard":
                         cls = objs[op["obj"]]["spec"].name
@@ -475,14 +504,39 @@ class C01(Machine):
                     st["since"] = []
                     st["muts"].append(mu.name)
                     R.trace.append((step, "m", mu.name))
+            self._shadow_events(R, len(run["ops"]), objs)
+            shadow.STATE["enabled"] = False
+            if shadow.STATE["installed"]:
+                h, nd = shadow.take_counts()
+                R.probe("shadow_hits_reevaluated", h)
+                if nd:
+                    R.probe("shadow_nondeterministic_method", nd)
             # ---------------- phase 2: judge every recorded query
             for rec in records:
                 self._judge(R, rec, tdir)
         finally:
             objs.clear()
+            shadow.reset()
             shutil.rmtree(base, ignore_errors=True)
         R.opsig = C.digest_of(repr(sig))
         return R.as_dict()
+
+    def _shadow_events(self, R, step, objs):
+        """Shadow configuration: hits whose re-evaluation differs."""
+        for e in shadow.drain():
+            if e["kind"] != "stale":
+                R.probe("shadow_edited_left_to_C06")
+                continue
+            muts = sorted({m_ for st in objs.values()
+                           for m_ in st.get("muts", [])})
+            R.probe("shadow_stale_hit")
+            R.violate(
+                f"{self.pid}|{e['cls']}|shadow|{e['method']}",
+                f"before step {step}: {e['qual']}{e['args']} was served from "
+                f"the cache although re-evaluating it on the object as it is "
+                f"now gives another value ({e['why']}); mutators so far: "
+                f"{muts}",
+                victim=f"{e['cls']}|shadow:{e['method']}")
 
     @staticmethod
     def _with_write_cut(R, cut, f, *a):
